@@ -58,6 +58,15 @@ def make_param(x, st: St, name: str, spec):
         return from_const(x, st, c)
     if spec == "float":
         return V("float", "p:" + name)
+    if spec == "kind":
+        from . import pnodes
+        t = z3.String(name)
+        pnodes._KIND_TERMS[t.get_id()] = t
+        if st is not None:
+            st.pc.append(pnodes.member_of(t, pnodes.universe()))
+        return V("kind", t)
+    if spec == "kindset":
+        return V("opq", "p:" + name)
     if spec == "intset":
         return V("iset", name)
     if spec == "strset":
@@ -89,6 +98,8 @@ def from_const(x, st, c):
 
 def init_ghost(x, st: St):
     st.ghost["expand_stack"] = V("sseq", z3.Const("expand_stack@entry", SeqS))
+    if getattr(x.c, "node_stack", ""):
+        st.ghost[x.c.node_stack] = V("kstr", z3.String(x.c.node_stack + "@entry"))
     for n in GHOST_LIST_FIELDS:
         st.ghost[n] = V("glist", (n + "@entry", []))
     if x.c.abstract_calls:
@@ -116,6 +127,10 @@ def module_constant(x, mod, name, node):
                 flag = v.elts[1].value if len(v.elts) > 1 and isinstance(v.elts[1], ast.Constant) else None
                 tab[k.value] = (v.elts[0].id, flag)
         return V("ftable", {"name": f"{mod.name}.{name}", "table": tab})
+    from . import pnodes
+    kc = pnodes.module_constant(x, mod, name, node)
+    if kc is not None:
+        return kc
     try:
         c = ast.literal_eval(node)
     except Exception:
@@ -208,6 +223,14 @@ def equal(x, st, a: V, b: V):
         b = st.ghost[b.t]
     if a.k == "str" and b.k == "str":
         return a.t == b.t
+    if a.k == "kind" and b.k == "kind":
+        return a.t == b.t
+    if a.k == "kstr" or b.k == "kstr":
+        from . import pnodes
+        ta, tb = pnodes.kstr_of(x, st, a), pnodes.kstr_of(x, st, b)
+        if ta is not None and tb is not None:
+            return ta == tb
+        return None
     if a.k in ("int", "bool") and b.k in ("int", "bool"):
         if a.k == "bool" and b.k == "bool":
             return a.t == b.t
@@ -256,6 +279,11 @@ def equal(x, st, a: V, b: V):
 
 
 def contains(x, st, cont: V, item: V, node):
+    if item.k == "kind":
+        from . import pnodes
+        r = pnodes.contains(x, st, cont, item)
+        if r is not None:
+            return r
     if cont.k == "str" and item.k == "str":
         return z3.Contains(cont.t, item.t)
     if cont.k == "str" and item.k == "opq":
@@ -387,7 +415,7 @@ CTX_FIELDS = {
 
 
 def ctx_field(x, st: St, name: str, node):
-    if name in GHOST_SEQ_FIELDS or name in GHOST_LIST_FIELDS:
+    if name in GHOST_SEQ_FIELDS or name in GHOST_LIST_FIELDS or name == getattr(x.c, "node_stack", None):
         return V("gref", name)
     ov = st.ghost.get("field:" + name)
     if ov is not None:
@@ -414,6 +442,11 @@ def ctx_field(x, st: St, name: str, node):
 
 def binop(x, st, op, a: V, b: V, node, inplace=False):
     opn = type(op).__name__
+    if a.k in ("kind", "kindset") or b.k in ("kind", "kindset"):
+        from . import pnodes
+        r = pnodes.binop(x, st, opn, a, b)
+        if r is not None:
+            return [(st, r)]
     if a.k == "gref":
         a = st.ghost[a.t]
     if b.k == "gref":
@@ -428,6 +461,11 @@ def binop(x, st, op, a: V, b: V, node, inplace=False):
         if a.k == "str" and b.k == "opq" or a.k == "opq" and b.k == "str":
             if x.mode == "frame":
                 return [(st, vstr(z3.Concat(x.as_str(a), x.as_str(b))))]
+        if "kstr" in (a.k, b.k) and not inplace:
+            from . import pnodes
+            ta, tb = pnodes.kstr_of(x, st, a), pnodes.kstr_of(x, st, b)
+            if ta is not None and tb is not None:
+                return [(st, V("kstr", z3.Concat(ta, tb)))]
         if "sseq" in (a.k, b.k) and not inplace:
             sa, sb = to_sseq(x, st, a), to_sseq(x, st, b)
             if sa is not None and sb is not None:
@@ -533,6 +571,11 @@ def slice_(x, st, a: V, lo, hi, step, node):
         l = _norm_slice_bound(lo, L, z3.IntVal(0))
         h = _norm_slice_bound(hi, L, L)
         return [(st, V("sseq", z3.SubSeq(a.t, l, z3.If(h > l, h - l, 0))))]
+    if a.k == "kstr":
+        L = z3.Length(a.t)
+        l = _norm_slice_bound(lo, L, z3.IntVal(0))
+        h = _norm_slice_bound(hi, L, L)
+        return [(st, V("kstr", z3.SubString(a.t, l, z3.If(h > l, h - l, 0))))]
     if a.k == "strlist":
         L = a.t["len"]
         l = _norm_slice_bound(lo, L, z3.IntVal(0))
@@ -565,6 +608,12 @@ def slice_(x, st, a: V, lo, hi, step, node):
 
 
 def index(x, st, a: V, i: V, node):
+    if a.k in ("kinddict", "leveltab"):
+        from . import pnodes
+        return pnodes.table_index(x, st, a, i, node)
+    if a.k == "gref" and a.t == getattr(x.c, "node_stack", None):
+        from . import pnodes
+        return pnodes.index(x, st, a.t, i, node)
     if a.k == "gref":
         a = st.ghost[a.t]
     if a.k == "str" and i.k in ("int", "bool"):
@@ -795,6 +844,9 @@ def generic_element(x, st, v: V | None):
     """an arbitrary element of the iterable (fresh, constrained)"""
     if v is None:
         return vopq("elem")
+    if v.k in ("gref", "nodeiter") and v.t == getattr(x.c, "node_stack", None):
+        from . import pnodes
+        return pnodes.element(x, st, v.t)
     if v.k == "strlist":
         j = z3.Int(fresh_name("j"))
         st.pc.append(z3.And(j >= 0, j < v.t["len"]))
@@ -880,6 +932,11 @@ def spec_module(name):
 # ---------------------------------------------------------------- attributes
 
 def getattr_(x, st, v: V, name: str, node):
+    if v.k in ("pnode", "kind", "kindset") or (v.k == "type" and v.t == "NodeKind"):
+        from . import pnodes
+        r = pnodes.getattr_(x, st, v, name, node)
+        if r is not None:
+            return r
     if v.k in ("page", "title", "zrow"):
         from . import absmodels
         r = absmodels.getattr_(x, st, v, name, node)
@@ -903,7 +960,7 @@ def getattr_(x, st, v: V, name: str, node):
     if v.k == "mod":
         return [(st, V("mod", v.t + "." + name))]
     if v.k in ("str", "ref", "gref", "strlist", "tuple", "match", "smap", "sseq", "set", "cdict",
-               "srec", "path", "sset", "float", "int", "locdata", "glist"):
+               "srec", "path", "sset", "float", "int", "locdata", "glist", "kinddict", "leveltab"):
         return [(st, V("func", ("method", v, name)))]
     if v.k == "opq":
         # attribute of an opaque object: a stable opaque child
@@ -943,6 +1000,14 @@ def _ctx_unknown_field(x, st, name, node):
 
 
 def setattr_(x, st, recv: V, name: str, v: V, node):
+    if recv.k == "pnode":
+        from . import pnodes
+        pnodes.setattr_(x, st, recv, name, v, node)
+        return
+    if recv.k == "ctx" and name == getattr(x.c, "node_stack", None):
+        from . import pnodes
+        pnodes.assign(x, st, name, v, node)
+        return
     if recv.k == "ctx":
         if name in GHOST_SEQ_FIELDS:
             seq = to_sseq(x, st, v)
@@ -987,6 +1052,14 @@ def seq_nth(t, i):
     return t[i]
 
 
+def _elem_term(x, e):
+    if e.k == "kind":
+        return e.t
+    if e.k == "pnode":
+        return e.t[0]
+    return x.as_str(e)
+
+
 def to_sseq(x, st, v: V):
     if v.k == "sseq":
         return v
@@ -995,7 +1068,7 @@ def to_sseq(x, st, v: V):
     if v.k == "ref":
         o = st.heap[v.t]
         if isinstance(o, HList) and o.items is not None:
-            ts = [x.as_str(e) for e in o.items]
+            ts = [_elem_term(x, e) for e in o.items]
             if all(t is not None for t in ts):
                 if not ts:
                     return V("sseq", z3.Empty(SeqS))
@@ -1246,6 +1319,37 @@ def call_callback(x, st, name, cbname, pos, kw, node):
             out.append(_raise_fork(x, st, node))
         return out
     spec = x.reg.callback_contracts.get(cbname, {})
+    if spec.get("members"):
+        # a table of package functions, each of which has this contract (checked: see spec["members"]);
+        # caller side: pre@call obligations, havoc of the modified ghost fields, the ensures assumed
+        sid = next(x.scope_ids)
+        st.scopes[sid] = {}
+        for cl in spec.get("requires", []):
+            for s2, v in x.eval_clause(cl, st, (sid,)):
+                x.oblige("pre@call", f"{cbname}: {cl} @ {loader.norm(node)[:60]}", s2,
+                         z3.BoolVal(False) if v.k == "raise" else x.truth_st(v, s2))
+        pre = st.fork()
+        for gname in spec.get("modifies", []):
+            g0 = st.ghost.get(gname)
+            if g0 is not None and g0.k == "kstr":
+                st.ghost[gname] = V("kstr", z3.String(fresh_name("post_" + gname)))
+            elif g0 is not None and g0.k == "sseq":
+                st.ghost[gname] = V("sseq", z3.Const(fresh_name("post_" + gname), SeqS))
+        saved_entry = st.entry
+        st.entry = pre
+        try:
+            for cl in spec.get("ensures", []):
+                n0 = len(st.pc)
+                for s2, v in x.eval_clause(cl, st, (sid,)):
+                    if v.k != "raise":
+                        extra = s2.pc[n0:] if s2 is not st else []
+                        st.pc.append(z3.Implies(z3.And(*extra) if extra else z3.BoolVal(True), x.truth_st(v, s2)))
+        finally:
+            st.entry = saved_entry
+        outs = [(st, NONE)]
+        if x.mode == "frame":
+            outs.append(_raise_fork(x, pre, node))
+        return outs
     x.assumptions.add(f"callback `{name}` honours contract `{cbname}`: " + spec.get("text", ""))
     rk = spec.get("result", "opq")
     outs = []
@@ -1421,10 +1525,31 @@ def apply_contract(x, st, c, fn, pos, kw, node, chain):
         cands = [(st, fresh(rk, "ret"))]
     for s, r in cands:
         x.log_call(s, c.target.split(":")[-1].rsplit(".", 1)[-1], pos, r, kw)
+        pre = None
+        if getattr(c, "assume_ensures", False):
+            pre = s.fork()                 # the state before the call: what old() means in the callee's ensures
+            for gname in c.modifies:
+                g0 = s.ghost.get(gname)
+                if g0 is not None and g0.k == "sseq":
+                    s.ghost[gname] = V("sseq", z3.Const(fresh_name("post_" + gname), SeqS))
+                elif g0 is not None and g0.k == "kstr":
+                    s.ghost[gname] = V("kstr", z3.String(fresh_name("post_" + gname)))
         for eff in getattr(c, "effects", []) or []:
             apply_effect(x, s, eff, bound)
         env = dict(bound)
         env["result"] = r
+        if pre is not None:
+            saved_entry = s.entry
+            s.entry = pre
+            try:
+                for cl in c.ensures:
+                    n0 = len(s.pc)
+                    for s2, v in x.eval_clause(cl, s, ch2, env):
+                        if v.k != "raise":
+                            extra = s2.pc[n0:] if s2 is not s else []
+                            s.pc.append(z3.Implies(z3.And(*extra) if extra else z3.BoolVal(True), x.truth_st(v, s2)))
+            finally:
+                s.entry = saved_entry
         for cl in c.callee_ensures:
             for s2, v in x.eval_clause(cl, s, ch2, env):
                 if v.k != "raise":
@@ -1458,6 +1583,9 @@ def apply_effect(x, st, eff: str, bound):
 
 
 def call_type(x, st, tname, pos, kw, node):
+    if getattr(x.c, "node_stack", "") and tname in ("WikiNode", "TemplateNode", "HTMLNode", "LevelNode"):
+        from . import pnodes
+        return pnodes.construct(x, st, tname, pos, kw, node)
     if tname in ("deque", "defaultdict"):
         return [(st, vopq(tname))]
     if tname == "Path":
@@ -1479,7 +1607,7 @@ def _len_of(x, st, v: V):
         v = st.ghost[v.t]
     if v.k == "str":
         return z3.Length(v.t)
-    if v.k == "sseq":
+    if v.k in ("sseq", "kstr"):
         return z3.Length(v.t)
     if v.k == "strlist":
         return v.t["len"]
@@ -1664,6 +1792,8 @@ def call_builtin(x, st, name, pos, kw, node, chain):
         if fv.k == "func" and fv.t == ("builtin", "str"):
             return [(st, V("maplist", ("str", pos[1])))]
         return [(st, vopq("map"))]
+    if name in ("reversed", "iter") and pos and pos[0].k == "gref" and pos[0].t == getattr(x.c, "node_stack", None):
+        return [(st, V("nodeiter", pos[0].t))]
     if name in ("reversed", "sorted", "enumerate", "zip", "iter"):
         if a0 is not None and a0.k == "str" and name == "reversed":
             return [(st, V("revchars", a0.t))]
@@ -1731,6 +1861,11 @@ def isinstance_(x, st, v: V, tnode, tv):
 
 def call_method(x, st, recv: V, name: str, pos, kw, node, chain):
     k = recv.k
+    if k in ("kinddict", "leveltab"):
+        from . import pnodes
+        if name == "get" and pos:
+            return pnodes.table_index(x, st, recv, pos[0], node, pos[1] if len(pos) > 1 else NONE)
+        return [(st, vopq("tab." + name))]
     if k == "str":
         return str_method(x, st, recv, name, pos, kw, node, chain)
     if k == "gref":
@@ -1820,6 +1955,9 @@ def call_method(x, st, recv: V, name: str, pos, kw, node, chain):
 
 
 def ghost_method(x, st, field, name, pos, kw, node):
+    if field == getattr(x.c, "node_stack", None):
+        from . import pnodes
+        return pnodes.method(x, st, field, name, pos, kw, node)
     g = st.ghost[field]
     if g.k == "sseq":
         if name == "append":
@@ -2030,11 +2168,14 @@ def call_re(x, st, fn, pos, kw, node, chain):
         c = x.const_of(pos[0])
         if c is not None and src is not None and src.k == "str":
             regex_contracts.apply_sub(x, out_st, c[0], repl, src, r)
+        x.log_call(out_st, "re." + fn, pos, r, kw)
         return [(out_st, r)]
     if fn == "split":
         return [(st, x.alloc(st, HList(None, "str", 1)))]
     if fn == "finditer" or fn == "findall":
-        return [(st, V("matchiter", (pos[0], pos[1] if len(pos) > 1 else None)))]
+        r = V("matchiter", (pos[0], pos[1] if len(pos) > 1 else None))
+        x.log_call(st, "re." + fn, pos, r, kw)
+        return [(st, r)]
     if fn == "escape":
         return [(st, fresh("str", "esc"))]
     if fn == "compile":
